@@ -108,6 +108,8 @@ def sort_of(t: tuple):
         return DATA[t[1]]["sort"]
     if k in ("set", "bag"):
         return z3.ArraySort(sort_of(t[1]), z3.BoolSort())
+    if k == "arr":
+        return z3.ArraySort(sort_of(t[1]), sort_of(t[2]))
     if k == "seq":
         return z3.SeqSort(sort_of(t[1]))
     if k == "tuple":
@@ -118,6 +120,9 @@ def sort_of(t: tuple):
         return opt_sort(("bool",))  # only ever compared, never stored
     if k == "obj" and t[1] in OBJ_LAYOUT:
         return obj_sort(t[1])
+    if k == "dict" and len(t) == 3:
+        # a dict as ONE term (only inside record snapshots / results of pure functions): the pair (domain, value array)
+        return tuple_sort((("set", t[1]), _ArrT(t[1], t[2])))[0]
     raise TypeError(f"type {t} has no SMT sort")
 
 
@@ -189,6 +194,12 @@ OBJ_LAYOUT = {}  # class name -> {field: type}   (mutable records such as Rule, 
 
 def declare_obj(name, fields: dict):
     OBJ_LAYOUT[name] = {f: parse_type(t) for f, t in fields.items()}
+
+
+class _ArrT(tuple):
+    """internal type descriptor ('arr', K, V): the value array of a dict (only as a component of the dict's snapshot sort)"""
+    def __new__(cls, k, v):
+        return tuple.__new__(cls, ("arr", k, v))
 
 
 _obj_sorts = {}
@@ -272,6 +283,11 @@ def to_term(v: V):
         if z3.is_app(isnone) and isnone.num_args() == 1 and isnone.decl().eq(s.recognizer(0)) and it.eq(s.accessor(1, 0)(isnone.arg(0))):
             return isnone.arg(0)
         return z3.If(isnone, s.constructor(0)(), s.constructor(1)(it))
+    if k == "dict" and len(v.t) == 3 and v.x is not None:
+        s, mk, accs = tuple_sort((("set", v.t[1]), _ArrT(v.t[1], v.t[2])))
+        if z3.is_app(v.x[0]) and v.x[0].num_args() == 1 and v.x[0].decl().eq(accs[0]) and v.x[1].eq(accs[1](v.x[0].arg(0))):
+            return v.x[0].arg(0)
+        return mk(v.x[0], v.x[1])
     if k == "obj" and v.t[1] in OBJ_LAYOUT and set(v.x) == set(OBJ_LAYOUT[v.t[1]]):
         s = obj_sort(v.t[1])
         fts = [to_term(coerce(v.x[f], ft)) for f, ft in OBJ_LAYOUT[v.t[1]].items()]
@@ -294,6 +310,9 @@ def from_term(t, term) -> V:
     if k == "opt":
         s = opt_sort(t[1])
         return V(t, (s.recognizer(0)(term), from_term(t[1], s.accessor(1, 0)(term))))
+    if k == "dict" and len(t) == 3:
+        s, mk, accs = tuple_sort((("set", t[1]), _ArrT(t[1], t[2])))
+        return V(t, (accs[0](term), accs[1](term)))
     if k == "obj" and t[1] in OBJ_LAYOUT:
         s = obj_sort(t[1])
         return V(t, {f: from_term(ft, s.accessor(0, i)(term)) for i, (f, ft) in enumerate(OBJ_LAYOUT[t[1]].items())})
